@@ -60,6 +60,8 @@ unsigned g_st_calls; size16_t g_st_last;                 /* ghost record of the 
 UNIT = Unit('dfadiag', PRELUDE, fns, consts=PC.UNINIT)
 UNIT.facts = [r'static const size_t transitions_size = meta::distinct_values_count<char>;', r'using conflicted_terms = size16_t\[4\];']
 apply_spec(UNIT.fns, os.path.join(HERE, '..', 'contracts', 'dfadiag.spec'))
-# the per-state writer (257 iterations over a 256-byte scratch vector, quantified run invariant) does not finish on any installed SAT back end in
-# 25 min: its contract stays in the spec file, is NOT checked, and is therefore an *assumed* contract where write_dfa_diag_str uses it
+# the per-state writer does not get through CBMC's symbolic execution (not even to the solver) in 15 min, with a quantified or a
+# quantifier-free loop invariant: its contract stays in the spec file, is NOT checked, and is therefore an *assumed* contract where
+# write_dfa_diag_str uses it
 UNIT.fn('regex__write_dfa_state_diag_str').harness = None
+
